@@ -353,3 +353,71 @@ Theorem C13_file_reject_Hm5 : forall uw ud f src items xf items' xf' oracle name
   diag_count (events_upto oracle (tokens_of items') (2 + m)) = 1%nat.
 Proof. exact file_reject_Hm5. Qed.
 Print Assumptions C13_file_reject_Hm5.
+
+(* ---- the statement after the leading comments is an EMPTY LINE: IsEmptyLine translated, its turn proved, the
+   recognition hypothesis of the file-level reject theorems discharged (assumption left: declines_newline, i.e. the four
+   untranslated primaries between IsComment and IsEmptyLine do not match a NEWLINE-first statement) *)
+From NV Require Import Gen.IsEmptyLine Model.EngineTokE Proofs.EmptyLineTurn.
+(* ---- append block for Props/C13.v (imports to add: Gen.IsEmptyLine Model.EngineTokE Proofs.EmptyLineTurn) *)
+Theorem C13_turn_e_refines : forall um order toks r, turn order toks = Some r -> turn_e um order toks = Some r.
+Proof. exact turn_refines. Qed.
+Print Assumptions C13_turn_e_refines.
+
+Theorem C13_induced_e_induced : forall um oracle toks, induced_e um oracle toks -> induced oracle toks.
+Proof. exact induced_e_induced. Qed.
+Print Assumptions C13_induced_e_induced.
+
+Theorem C13_isemptyline_on_newline : forall (t : token) rest, t_type t = NEWLINE -> isemptyline_run (t :: rest) = (true, 1).
+Proof. exact isemptyline_on_newline. Qed.
+Print Assumptions C13_isemptyline_on_newline.
+
+Theorem C13_turn_on_empty_line : forall um (t : token) rest, declines_newline um -> t_type t = NEWLINE ->
+  turn_e um primaries_order (t :: rest) = Some (Matched (s "IsEmptyLine") 1).
+Proof. exact turn_on_empty_line. Qed.
+Print Assumptions C13_turn_on_empty_line.
+
+Theorem C13_file_reject_lines_emptyline : forall um uw ud bs rest items xf items' xf' oracle m,
+  declines_newline um -> forallb body_ok bs = true -> bs <> [] -> ~ searches header_re (comment_lines bs) ->
+  lex uw ud (10%N :: rest) = Ok (items, xf) ->
+  lex uw ud (comment_lines bs ++ 10%N :: rest) = Ok (items', xf') ->
+  induced_e um oracle (tokens_of items') ->
+  diag_count (events_upto oracle (tokens_of items') (List.length bs + S m)) = 1%nat.
+Proof. exact file_reject_lines_emptyline. Qed.
+Print Assumptions C13_file_reject_lines_emptyline.
+
+Theorem C13_file_reject_Hm6_emptyline : forall um uw ud j f rest items xf items' xf' oracle m,
+  declines_newline um -> (j < 11)%nat -> fields_lex_ok f = true -> fields_plain f = true ->
+  lex uw ud (10%N :: rest) = Ok (items, xf) ->
+  lex uw ud (lines_text (hm6_lines j f) ++ 10%N :: rest) = Ok (items', xf') ->
+  induced_e um oracle (tokens_of items') ->
+  diag_count (events_upto oracle (tokens_of items') (10 + S m)) = 1%nat.
+Proof. exact file_reject_Hm6_emptyline. Qed.
+Print Assumptions C13_file_reject_Hm6_emptyline.
+
+Theorem C13_file_reject_Hm7_emptyline : forall um uw ud last n f rest items xf items' xf' oracle m,
+  declines_newline um -> n <> 74%nat -> fields_lex_ok f = true -> fields_plain f = true ->
+  lex uw ud (10%N :: rest) = Ok (items, xf) ->
+  lex uw ud (lines_text (hm7_lines last n f) ++ 10%N :: rest) = Ok (items', xf') ->
+  induced_e um oracle (tokens_of items') ->
+  diag_count (events_upto oracle (tokens_of items') (11 + S m)) = 1%nat.
+Proof. exact file_reject_Hm7_emptyline. Qed.
+Print Assumptions C13_file_reject_Hm7_emptyline.
+
+Theorem C13_file_reject_Hm8_emptyline : forall um uw ud k x f rest items xf items' xf' oracle m,
+  declines_newline um -> (k = 5 \/ k = 7 \/ k = 8)%nat -> fields_lex_ok f = true -> fields_plain f = true ->
+  chain_ok 32 x = true -> no_char 42 x = true -> starts_with (keyword_of k) (textline x (art_of k)) = false ->
+  lex uw ud (10%N :: rest) = Ok (items, xf) ->
+  lex uw ud (lines_text (hm8_lines k x f) ++ 10%N :: rest) = Ok (items', xf') ->
+  induced_e um oracle (tokens_of items') ->
+  diag_count (events_upto oracle (tokens_of items') (11 + S m)) = 1%nat.
+Proof. exact file_reject_Hm8_emptyline. Qed.
+Print Assumptions C13_file_reject_Hm8_emptyline.
+
+Theorem C13_file_reject_Hm5_emptyline : forall um uw ud f rest items xf items' xf' oracle m,
+  declines_newline um -> fields_lex_ok f = true -> fields_plain f = true ->
+  lex uw ud (10%N :: rest) = Ok (items, xf) ->
+  lex uw ud (hm5_text f ++ 10%N :: 10%N :: rest) = Ok (items', xf') ->
+  induced_e um oracle (tokens_of items') ->
+  diag_count (events_upto oracle (tokens_of items') (2 + m)) = 1%nat.
+Proof. exact file_reject_Hm5_emptyline. Qed.
+Print Assumptions C13_file_reject_Hm5_emptyline.
